@@ -16,7 +16,7 @@ THRESH = [F(3, 10), F(45, 100), F(55, 100), F(0), F(1, 2), F(1), F(3, 4), F(1, 4
 
 
 def gen_matrix(rng, n):
-    kind = rng.choice(["grid", "ties", "01", "coarse", "additive"])
+    kind = rng.choice(["grid", "ties", "01", "coarse", "additive", "neartie", "neartie"])
     if kind == "grid":
         vals = GRID
     elif kind == "ties":
@@ -25,6 +25,12 @@ def gen_matrix(rng, n):
         vals = [F(0), F(1)]
     elif kind == "coarse":
         vals = [F(0), F(1, 2), F(1)]
+    elif kind == "neartie":
+        # near-ties: grid values plus tiny DYADIC perturbations (so that every float sum stays exact and
+        # quotients remain separated by far more than an ulp): catches tolerance-based tie-breaking
+        base = rng.sample(GRID[1:], 2)
+        eps = F(1, 2 ** rng.choice([21, 21, 24, 30]))
+        vals = [b + k * eps for b in base for k in (0, 1, 2)]
     else:
         vals = [F(k, 4) for k in range(1, 8)]
     m = [[F(0)] * n for _ in range(n)]
